@@ -187,6 +187,8 @@ type fctx struct {
 	rawTy   string                     // Coq type of the function's result tuple (without option)
 	retWrap func(r string) string      // a return of the (tupled) value r in the current context
 	fuelOut func() string              // "out of fuel" in the current context (fueled functions only)
+	resTys  []types.Type               // effective result types of the function (or function literal) being translated
+	inLoop  int                        // nesting depth of loops at the current statement
 }
 
 // addOpq registers an opaque parameter of the function being translated; one name must have
@@ -660,6 +662,7 @@ func (c *fctx) function() {
 	}
 	// results
 	u.resTys = c.effectiveResults(d, sig)
+	c.resTys = u.resTys
 	u.fueled = c.needsFuel(d.Body)
 	var rts []string
 	for _, v := range ptrs {
@@ -1027,7 +1030,7 @@ func (c *fctx) stmts(list []ast.Stmt, k func() string) string {
 			return fmt.Sprintf("let %s := %s in\n%s", pattern(names), c.callMulti(s.Results[0], len(names)), c.retK(names))
 		} else {
 			for i, e := range s.Results {
-				vals = append(vals, c.exprAs(e, c.u.resTys[i]))
+				vals = append(vals, c.exprAs(e, c.resTys[i]))
 			}
 		}
 		return c.retK(vals)
@@ -1389,11 +1392,18 @@ func (c *fctx) ifStmt(s *ast.IfStmt, next func() string) string {
 		}
 		pre = strings.TrimSuffix(pre, "\x00")
 	}
-	cond := c.expr(s.Cond)
 	var elseList []ast.Stmt
 	if s.Else != nil {
 		elseList = []ast.Stmt{s.Else}
 	}
+	if tv := c.info.Types[s.Cond]; tv.Value != nil && tv.Value.Kind() == constant.Bool {
+		// a constant condition (if debug { ... } with const debug = false): only the live arm exists
+		if constant.BoolVal(tv.Value) {
+			return pre + c.stmts(s.Body.List, next)
+		}
+		return pre + c.stmts(elseList, next)
+	}
+	cond := c.expr(s.Cond)
 	if !containsReturn(s.Body) && (s.Else == nil || !containsReturn(s.Else)) && !c.containsPanic(s) && !c.containsFueled(s) {
 		// join: the arms only update variables
 		w := c.assigned(s)
@@ -1549,6 +1559,12 @@ func (c *fctx) loopBodyCheck(body *ast.BlockStmt) {
 // loop emits  let W := fold_left (fun W item => body) items W in next   and, when the body
 // may return, threads an option through the fold (the first return wins).
 func (c *fctx) loop(s ast.Stmt, body *ast.BlockStmt, items string, itemPat func() string, next func() string) string {
+	ast.Inspect(body, func(n ast.Node) bool {
+		if fl, ok := n.(*ast.FuncLit); ok {
+			c.fail(fl.Pos(), "function literal (closure) inside a loop")
+		}
+		return true
+	})
 	c.loopBodyCheck(body)
 	if c.containsPanic(body) {
 		c.fail(body.Pos(), "panic inside a loop body")
@@ -2099,7 +2115,7 @@ func (c *fctx) expr(e ast.Expr) string {
 		}
 		c.fail(x.Pos(), "composite literal of type %s", c.info.TypeOf(x))
 	case *ast.FuncLit:
-		c.fail(x.Pos(), "function literal (closure)")
+		return c.funcLit(x)
 	case *ast.SliceExpr:
 		c.fail(x.Pos(), "slice expression a[i:j]")
 	case *ast.TypeAssertExpr:
